@@ -261,6 +261,8 @@ func loadPatchVariants(verif, prop string) []patchVariant {
 }
 
 var patchFileRe = regexp.MustCompile(`(?m)^\+\+\+ b/(\S+)`)
+var patchDeletedRe = regexp.MustCompile(`(?m)^--- a/(\S+)\n\+\+\+ /dev/null`)
+var packageClauseRe = regexp.MustCompile(`(?m)^package\s+(\w+)`)
 
 func runPatchVariant(self, prop, repo, verif, tmp string, idx int, pv patchVariant) variantResult {
 	res := variantResult{Name: pv.Name, Kind: "breaking", Expected: pv.Expect}
@@ -284,10 +286,30 @@ func runPatchVariant(self, prop, repo, verif, tmp string, idx int, pv patchVaria
 		}
 		pairs = append(pairs, filepath.Join(repo, rel)+"="+dst)
 	}
+	// files the patch deletes: present for `patch`, afterwards replaced by an empty file of the same package
+	var deleted []string
+	for _, m := range patchDeletedRe.FindAllStringSubmatch(string(diff), -1) {
+		rel := m[1]
+		if src, err := os.ReadFile(filepath.Join(repo, rel)); err == nil {
+			dst := filepath.Join(dir, rel)
+			os.MkdirAll(filepath.Dir(dst), 0o755)
+			os.WriteFile(dst, src, 0o644)
+			deleted = append(deleted, rel)
+			pairs = append(pairs, filepath.Join(repo, rel)+"="+dst)
+		}
+	}
 	if out, err := exec.Command("patch", "-p1", "-s", "-f", "-d", dir, "-i", pv.Path).CombinedOutput(); err != nil {
 		_ = out
 		res.Got, res.OK = "stale: patch no longer applies to the current tree", true
 		return res
+	}
+	for _, rel := range deleted {
+		src, _ := os.ReadFile(filepath.Join(repo, rel))
+		pk := "main"
+		if m := packageClauseRe.FindSubmatch(src); m != nil {
+			pk = string(m[1])
+		}
+		os.WriteFile(filepath.Join(dir, rel), []byte("package "+pk+"\n"), 0o644)
 	}
 	cmd := exec.Command(self, "-prop", prop, "-tier", "quick", "-repo", repo, "-verif", verif, "-noevidence", "-overlay", strings.Join(pairs, ","))
 	out, _ := cmd.CombinedOutput()
